@@ -100,12 +100,18 @@ def a64_unit(res):
         # sp only occurs x-prefixed (ParserAArch64.process_sp_register / process_memory_address)
         ex.assume(z3.Implies(bstr_eq(na, "sp"), bstr_eq(lpa, "x")))
         ex.assume(z3.Implies(bstr_eq(nb, "sp"), bstr_eq(lpb, "x")))
-        ex.extra.update(pa=pa, pb=pb, na=na, nb=nb, lpa=lpa, lpb=lpb)
-        ra = ex.instantiate("RegisterOperand", kw=dict(prefix=pa, name=na))
-        rb = ex.instantiate("RegisterOperand", kw=dict(prefix=pb, name=nb))
+        ex.extra.update(pa=pa, pb=pb, na=na, nb=nb, lpa=lpa, lpb=lpb, variant=VARIANT)
+        # how the register is written apart from its class and number - element size, lane count, element index, predication -
+        # must not matter ("any aliasing width of it"; p0.d and p0/z are the same predicate register)
+        ra = ex.instantiate("RegisterOperand", kw=dict(prefix=pa, name=na, **VARIANT[0]))
+        rb = ex.instantiate("RegisterOperand", kw=dict(prefix=pb, name=nb, **VARIANT[1]))
         return ex.call_method("ParserAArch64", "is_reg_dependend_of", SObj("ParserAArch64"), [ra, rb])
 
-    paths = ex.explore(run)
+    VARIANTS = [({}, {}), (dict(shape="d"), dict(shape="s")), (dict(shape="d"), dict(predication="z")), (dict(shape="b", lanes="16"), dict(shape="b", lanes="8", index=1)),
+                (dict(predication="m"), dict(predication="z"))]
+    paths = []
+    for VARIANT in VARIANTS:
+        paths += ex.explore(run)
 
     def post(v, p):
         e = p.extra
@@ -116,7 +122,7 @@ def a64_unit(res):
         e = p.extra
         a = (e["pa"].concretize(m), e["na"].concretize(m))
         b = (e["pb"].concretize(m), e["nb"].concretize(m))
-        return dict(replay="c12_a64", args=dict(a=a, b=b), key=f"a64:{S.a64_class(a[0])}/{S.a64_class(b[0])}")
+        return dict(replay="c12_a64", args=dict(a=a, b=b, written_a=e["variant"][0], written_b=e["variant"][1]), key=f"a64:{S.a64_class(a[0])}/{S.a64_class(b[0])}")
 
     n = res.add_paths(paths, post, concretize=conc)
     res.add_diff(paths, "d_c12_a64", lambda m, p: dict(a=[p.extra["pa"].concretize(m), p.extra["na"].concretize(m)], b=[p.extra["pb"].concretize(m), p.extra["nb"].concretize(m)]))
